@@ -6,6 +6,7 @@ import (
 	"encoding/json"
 	"fmt"
 	"os"
+	"sort"
 	"strings"
 	"testing"
 
@@ -220,6 +221,28 @@ type C12Case struct {
 	L []RS `json:"rules"`
 }
 
+func dbusShapeOK(r RS) bool {
+	if r.Kind != "dbus" {
+		return true
+	}
+	acc := r.List("Access")
+	bind := len(acc) == 1 && acc[0] == "bind"
+	if bind {
+		for _, k := range []string{"Path", "Interface", "Member", "PeerName", "PeerLabel"} {
+			if r.Str(k) != "" {
+				return false
+			}
+		}
+		return true
+	}
+	for _, a := range acc {
+		if a == "bind" {
+			return false
+		}
+	}
+	return r.Str("Name") == ""
+}
+
 func genC12Rule(t *rapid.T) RS { return genC12RuleOfKind(t, pick(t, "kind", abi3Kinds)) }
 
 func genC12RuleOfKind(t *rapid.T, kind string) RS {
@@ -362,16 +385,39 @@ func TestC12_Blocks(t *testing.T) {
 					r = genC12RuleOfKind(t, base.Kind) // a near-duplicate is of the same kind
 				}
 				if base.Kind == r.Kind {
-					keys := sortedKeys(r.F)
+					// a field of the fresh rule or of the earlier one: set to the fresh value, or
+					// dropped when the fresh rule does not have it (a qualifier, an optional condition)
+					km := map[string]bool{}
+					for k := range r.F {
+						km[k] = true
+					}
+					for k := range base.F {
+						km[k] = true
+					}
+					var keys []string
+					for k := range km {
+						keys = append(keys, k)
+					}
+					sort.Strings(keys)
+					change := func(label string) {
+						k := keys[rapid.IntRange(0, len(keys)-1).Draw(t, label)]
+						if v, ok := r.F[k]; ok {
+							base.F[k] = v
+						} else {
+							delete(base.F, k)
+						}
+					}
+					saved := base.Clone()
 					if len(keys) > 0 {
-						k := keys[rapid.IntRange(0, len(keys)-1).Draw(t, "dupfield")]
-						base.F[k] = r.F[k]
+						change("dupfield")
 						if chance(t, "twofields", 2) {
 							// rules that agree in everything but two fields (access and set of a
 							// signal rule, say) must not be folded into one
-							k2 := keys[rapid.IntRange(0, len(keys)-1).Draw(t, "dupfield2")]
-							base.F[k2] = r.F[k2]
+							change("dupfield2")
 						}
+					}
+					if !dbusShapeOK(base) {
+						base = saved // a bind rule has a name and nothing else, the other rules have no name: fields do not mix
 					}
 					r = base
 				}
